@@ -54,7 +54,7 @@ def parseBal (tok : String) : Option (Acct × Int) :=
 def showBal (p : Acct × Int) : String := s!"{dash p.1.1}/{p.1.2}={p.2}"
 
 def showErr : Err → String
-  | .priceTooLow => "priceTooLow" | .exists_ => "exists" | .debit => "debit" | .badName => "badName"
+  | .priceTooLow => "priceTooLow" | .priceTooHigh => "priceTooHigh" | .exists_ => "exists" | .debit => "debit" | .badName => "badName"
   | .badUri => "badUri" | .noParent => "noParent" | .parentNotOwned => "parentNotOwned"
   | .notFound => "notFound" | .notChangeable => "notChangeable" | .notOwner => "notOwner"
   | .isSub => "isSub" | .expired => "expired" | .notForSale => "notForSale" | .offerTooLow => "offerTooLow"
